@@ -817,9 +817,9 @@ func (x *Exec) doSlice(st *State, s *ssa.Slice) Value {
 			}
 			x.initWrite = false
 			if x.views == nil {
-				x.views = map[string]bool{}
+				x.views = map[string]*Ptr{}
 			}
-			x.views[r.S] = true
+			x.views[r.S] = p
 			arr, off, ln, cp = r, tZero, mkInt(at.Len()), mkInt(at.Len())
 		} else {
 			x.nilCheck(st, s, "slice", base, p)
